@@ -74,7 +74,7 @@ def main():
         "technique": c["tech"],
        } for pid, c in sorted(CHECKS.items())],
      "not_applicable": [{"property_id": k, "reason": v} for k, v in sorted(NA.items())],
-     "notes": "Technique family: deterministic simulation with fault injection; see DESIGN.md. Exit codes of every check: 0 held, 1 violation (VIOLATION line + replay file under /verif/replays), 2 harness error. Genuine defects found and repaired are listed in known_findings.json ('fixed').",
+     "notes": "Technique family: deterministic simulation with fault injection; see DESIGN.md. Exit codes of every check: 0 held, 1 violation (VIOLATION line + replay file under /verif/replays), 2 harness error. Genuine defects found and repaired are listed in known_findings.json ('fixed'); recorded-not-repaired findings under 'known' (each prints a KNOWN-FINDING line and suppresses exactly its own violation class).",
     }
     json.dump(m, open(os.path.join(ROOT, "MANIFEST.json"), "w"), indent=1)
     print("claimed:", claimed, "n/a:", len(NA))
